@@ -473,6 +473,25 @@ func c17Universe() []interface{} {
 
 func genC17(cw *caseWriter, seed uint64, tier string) {
 	r := newRng(seed)
+	// streamers as they are built, with the processor left alone or set to nil, on inputs that end on a reader failure,
+	// hold a refused line or nothing at all
+	for _, how := range []string{"as built", "WithProcessor(nil)", "WithProcessor(DefaultProcessor)"} {
+		for _, evs := range [][]readEv{{{kind: "d", data: []byte("{\"a\":1}\n{\"a\"")}, {kind: "e"}}, {{kind: "e"}}, {{kind: "d", data: []byte("{\"a\":1}\nnot json\n{\"a\":2}\n")}}, {}} {
+			how, evs := how, evs
+			emitProbe(cw, fmt.Sprintf("Stream with the processor %s on a reader script of %d events", how, len(evs)), func() string {
+				var sink bytes.Buffer
+				st := jsonline.NewStreamer(jsonline.NewImporter(&scriptReader{evs: evs}), jsonline.NewExporter(&sink))
+				switch how {
+				case "WithProcessor(nil)":
+					st = st.WithProcessor(nil)
+				case "WithProcessor(DefaultProcessor)":
+					st = st.WithProcessor(jsonline.DefaultProcessor)
+				}
+				err := st.Stream()
+				return fmt.Sprintf("err=%v out=%d", err != nil, sink.Len())
+			})
+		}
+	}
 	// values of every dynamic type the cast universe knows — named types, arrays of named bytes, typed nils, pointers,
 	// composites — stored in a row and then read through every getter, exported under every format and handed to
 	// every caster: whatever comes back, nothing panics
